@@ -443,7 +443,7 @@ namespace awkward {
 
   const ContentPtr
   EmptyArray::num(int64_t axis, int64_t depth) const {
-    int64_t posaxis = axis_wrap_if_negative(axis);
+    int64_t posaxis = axis_wrap_if_negative(axis, depth);
     if (posaxis == depth) {
       Index64 out(1);
       out.setitem_at_nowrap(0, length());
@@ -456,7 +456,7 @@ namespace awkward {
 
   const std::pair<Index64, ContentPtr>
   EmptyArray::offsets_and_flattened(int64_t axis, int64_t depth) const {
-    int64_t posaxis = axis_wrap_if_negative(axis);
+    int64_t posaxis = axis_wrap_if_negative(axis, depth);
     if (posaxis == depth) {
       throw std::invalid_argument(
         std::string("axis=0 not allowed for flatten") + FILENAME(__LINE__));
@@ -536,7 +536,7 @@ namespace awkward {
 
   const ContentPtr
   EmptyArray::rpad(int64_t target, int64_t axis, int64_t depth) const {
-    int64_t posaxis = axis_wrap_if_negative(axis);
+    int64_t posaxis = axis_wrap_if_negative(axis, depth);
     if (posaxis != depth) {
       throw std::invalid_argument(
         std::string("axis exceeds the depth of this array") + FILENAME(__LINE__));
@@ -550,7 +550,7 @@ namespace awkward {
   EmptyArray::rpad_and_clip(int64_t target,
                             int64_t axis,
                             int64_t depth) const {
-    int64_t posaxis = axis_wrap_if_negative(axis);
+    int64_t posaxis = axis_wrap_if_negative(axis, depth);
     if (posaxis != depth) {
       throw std::invalid_argument(
         std::string("axis exceeds the depth of this array") + FILENAME(__LINE__));
